@@ -176,7 +176,7 @@ def install_uninterpreted_strings(R):
 def install_writers(R):
     NP = 'NamePartTooLongException'
     R.contract(M, 'DNSOutgoing._write_utf', P, params={'s': 'str'}, requires=['wf_out(self)'],
-               raises={NP: 'ulen(s) > 64'}, raises_exact=[NP], ensures_raise=same_on(NP),
+               raises={NP: 'ulen(s) > 63'}, raises_exact=[NP], ensures_raise=same_on(NP),
                modifies=['self.data', 'self.size'],
                ensures=GROW + ['self.size == old(self.size) + 1 + ulen(s)', 'len(self.data) == old(len(self.data)) + 2'])
     R.contract(M, 'DNSOutgoing.write_character_string', P, params={'value': 'bytes'}, requires=['wf_out(self)'],
